@@ -25,9 +25,15 @@ func c19PanicValue(kind int) any {
 		return c19Struct{1, 2}
 	case 5:
 		return errC19Wrapped
+	case 6:
+		return errC19Context
 	}
 	return http.ErrAbortHandler
 }
+
+// an error value whose chain contains a context error: the recovery function
+// wraps it in its own coded error, and that code is what must arrive
+var errC19Context = &c15URLError{context.Canceled}
 
 // an ordinary error value that merely wraps the abort sentinel: it is not the
 // sentinel, so it must be handled like any other panic value
@@ -49,6 +55,9 @@ func c19Same(kind int, got any) bool {
 	case 5:
 		e, ok := got.(error)
 		return ok && e == error(errC19Wrapped)
+	case 6:
+		e, ok := got.(error)
+		return ok && e == error(errC19Context)
 	}
 	e, ok := got.(error)
 	return ok && e == http.ErrAbortHandler
@@ -61,7 +70,7 @@ func c19Same(kind int, got any) bool {
 func HarnessC19Recover() {
 	kind := nondetChoice("kind", 4)     // unary, client stream, server stream, bidi
 	proto := nondetChoice("proto", 3)   // connect, grpc, grpc-web
-	pv := nondetChoice("value", 6)      // nil, error, string, struct, abort sentinel, error wrapping the sentinel
+	pv := nondetChoice("value", 7)      // nil, error, string, struct, abort sentinel, error wrapping the sentinel, error wrapping a context error
 	point := nondetChoice("point", 3)   // 0 = before anything, 1 = after one send (streams), 2 = no panic
 	pos := nondetChoice("position", 3)  // recover interceptor before / between / after two others
 	if kind <= 1 && point == 1 {
@@ -72,6 +81,10 @@ func HarnessC19Recover() {
 	handle := func(ctx context.Context, spec Spec, h http.Header, r any) error {
 		calls++
 		seen = r
+		if pv == 6 {
+			// the usual shape of a recovery function: wrap what was recovered
+			return NewError(CodeDataLoss, &c02Wrapper{prefix: "recovered", err: r.(error)})
+		}
 		return NewError(CodeDataLoss, errors.New("recovered"))
 	}
 	c16Log = nil
@@ -229,7 +242,11 @@ func HarnessC19Recover() {
 		if callErr != nil {
 			check(CodeOf(callErr) == CodeDataLoss, "the client receives the error the recovery function returned")
 			ce, ok := asError(callErr)
-			check(ok && ce.Message() == "recovered", "the client receives the message the recovery function returned")
+			wantMsg := "recovered"
+			if pv == 6 {
+				wantMsg = "recovered: " + errC19Context.Error()
+			}
+			check(ok && ce.Message() == wantMsg, "the client receives the message the recovery function returned")
 		}
 		if point == 1 {
 			check(got == 1, "messages sent before the panic are delivered")
